@@ -53,6 +53,7 @@ type hsWorld struct {
 	cfg   HSCfg
 	lep   tcpip.Endpoint
 	nport uint16
+	late  string // a finding that is reported only if the run ends without any other (known finding F25)
 }
 
 func (w *hsWorld) net() tcpip.NetworkProtocolNumber {
@@ -626,6 +627,7 @@ func (w *hsWorld) noise(sub uint64) {
 	w.drainAccept()
 	w.Take()
 	isReset := false
+	var sent []uint32 // acknowledgement number and flags of an ACK-bearing segment
 	switch r.Intn(6) {
 	case 4: // a bare reset for the listener's port
 		p.Send(codec.FlagRST, p.ISS, 0, 0, nil, nil)
@@ -634,12 +636,18 @@ func (w *hsWorld) noise(sub uint64) {
 		p.Send(codec.FlagRST|codec.FlagACK, p.ISS, uint32(r.Uint64()), 0, nil, nil)
 		isReset = true
 	case 0:
-		p.Send(codec.FlagACK, p.ISS, uint32(r.Range(4, 1000))*uint32(r.Range(1, 1000)), 1024, nil, nil)
+		a := uint32(r.Range(4, 1000)) * uint32(r.Range(1, 1000))
+		sent = []uint32{a, codec.FlagACK}
+		p.Send(codec.FlagACK, p.ISS, a, 1024, nil, nil)
 	case 1:
-		p.Send(codec.FlagSYN|codec.FlagACK, p.ISS, uint32(r.Uint64()), 1024, nil, nil)
+		a := uint32(r.Uint64())
+		sent = []uint32{a, codec.FlagSYN | codec.FlagACK}
+		p.Send(codec.FlagSYN|codec.FlagACK, p.ISS, a, 1024, nil, nil)
 	case 2:
+		sent = []uint32{12345, codec.FlagFIN | codec.FlagACK}
 		p.Send(codec.FlagFIN|codec.FlagACK, p.ISS, 12345, 1024, nil, nil)
 	case 3:
+		sent = []uint32{99999, codec.FlagACK | codec.FlagPSH}
 		p.Send(codec.FlagACK|codec.FlagPSH, p.ISS, 99999, 1024, nil, []byte("data"))
 	}
 	w.Probes["listener_noise"]++
@@ -649,6 +657,19 @@ func (w *hsWorld) noise(sub uint64) {
 		if len(replies) > 0 {
 			w.Fail("reset-answered", "", "a reset sent to the listening port was answered by %s", fl(replies[0]))
 		}
+	} else if !w.cfg.Cookie && len(sent) == 2 {
+		// an ACK-bearing segment at a listening port, no handshake in progress for this peer: it acknowledges
+		// something the stack never sent - one reset whose sequence number is that acknowledgement number
+		nrst := 0
+		for _, t := range replies {
+			if t.Flags&codec.FlagRST != 0 && t.Seq == sent[0] {
+				nrst++
+			}
+		}
+		if nrst != 1 && w.late == "" {
+			w.late = fmt.Sprintf("segment with flags %#x acknowledging %d sent to the listening port from port %d (no handshake in progress for this peer, listener not in SYN-cookie mode) drew %d resets with that sequence number, exactly one is required", sent[1], sent[0], p.PPort, nrst)
+		}
+		w.Probes["ack_bearing_segment_at_listener"]++
 	}
 	if ep := w.acceptOne(); ep != nil {
 		w.Fail("connection-without-handshake", "", "a segment that is not part of any handshake made the listener hand out a connection")
@@ -727,6 +748,9 @@ func (scHandshake) Run(t *testing.T, prop string, seed uint64, cfgRaw json.RawMe
 		if n := tcp.VerifSynRcvdCount(); n != synRcvd0 && w.Viol == nil {
 			w.Probes["synrcvd_count_leaked"] += int64(n - synRcvd0)
 			w.Fail("half-open-slots-leaked", "", "%d handshake slot(s) are still counted as in progress although every handshake of the run ended more than 63 s ago: after enough of them listeners answer in SYN-cookie mode - and drop wrong ACKs silently - without any flood", n-synRcvd0)
+		}
+		if w.Viol == nil && w.late != "" {
+			w.Fail("ack-at-listener-not-reset", "", "%s", w.late)
 		}
 		finish(w.World, o)
 		if w.Replay {
